@@ -155,6 +155,10 @@ func (z *zipCtx) config(inline bool) paths.Config {
 					out = append(out, paths.Event{Kind: "SEND", Pos: call.Pos()})
 				case s == "sendAndClear":
 					out = append(out, paths.Event{Kind: "FLUSH", Pos: call.Pos()})
+				case s == "Append":
+					out = append(out, paths.Event{Kind: "APPENDREC", Pos: call.Pos()})
+				case strings.Contains(s, "Queue.Get"):
+					out = append(out, paths.Event{Kind: "GETQ", Pos: call.Pos()})
 				case strings.HasSuffix(s, "compressutil.DoZip"):
 					out = append(out, paths.Event{Kind: "COMPRESS", Pos: call.Pos()})
 				case s == "pack.WritePack":
@@ -519,27 +523,64 @@ func c16Paths(p *core.Program, r *core.Report) {
 			fileProbs(r, "C16.triggers", name, pos, trg, "size limit always tested; wait limit once a batch is open; flush iff a limit is reached")
 			r.OK("C16.decodable", name, pos, "buffer receives dout bytes of pack.WritePack")
 		case "run":
-			// flush on ctx.Done and on idle timeout
-			var onDone, onIdle bool
+			// path rule over one round of the background loop: when the stop signal is received the
+			// pending batch is flushed before returning; when the timed wait on the queue comes back
+			// empty-handed the pending batch is flushed; a record obtained is appended
+			ps, _ := paths.Enumerate(fi.Decl.Body, z.config(false))
+			onDone, onIdle := true, true
+			sawDone, sawIdle := false, false
+			dropped := ""
+			var gotVar string
 			ast.Inspect(fi.Decl.Body, func(n ast.Node) bool {
-				switch v := n.(type) {
-				case *ast.CommClause:
-					if v.Comm != nil && strings.Contains(types.ExprString(v.Comm.(*ast.ExprStmt).X), "ctx.Done()") {
-						for _, s := range v.Body {
-							if strings.Contains(stripSpaces(nodeString(s)), "sendAndClear()") {
-								onDone = true
-							}
-						}
-					}
-				case *ast.IfStmt:
-					if strings.Contains(stripSpaces(nodeString(v.Init)), "GetTimeout(") && v.Else != nil {
-						if strings.Contains(stripSpaces(nodeString(v.Else)), "sendAndClear()") {
-							onIdle = true
-						}
+				if as, ok := n.(*ast.AssignStmt); ok && len(as.Lhs) == 1 && len(as.Rhs) == 1 && strings.Contains(z.norm(as.Rhs[0]), "Queue.Get") {
+					if id, ok := as.Lhs[0].(*ast.Ident); ok {
+						gotVar = id.Name
 					}
 				}
 				return true
 			})
+			for _, pa := range ps {
+				if pa.Has("CUT") {
+					continue
+				}
+				stopped := false
+				for _, ev := range pa {
+					if ev.Kind == "COMM" && strings.Contains(ev.Arg, "Done()") {
+						stopped = true
+					}
+				}
+				if stopped {
+					sawDone = true
+					if !pa.Has("FLUSH") {
+						onDone = false
+					}
+					continue
+				}
+				if gotVar != "" && pa.HasArg("COND", cc(gotVar, "==", "nil", true)) {
+					sawIdle = true
+					if !pa.Has("FLUSH") {
+						onIdle = false
+					}
+				}
+				// what was taken from the queue is appended, unless the wait came back empty or the element
+				// is not a log-sink record (failed type test)
+				if gi := pa.Index("GETQ"); gi >= 0 && !pa.Has("APPENDREC") {
+					excused := false
+					for _, ev := range pa[gi:] {
+						if ev.Kind == "COND" && (ev.Arg == cc(gotVar, "==", "nil", true) || ev.Arg == "ok=false") {
+							excused = true
+						}
+					}
+					if !excused {
+						dropped = "a record taken from the queue is neither appended nor known to be absent on the path " + pa.String()
+					}
+				}
+			}
+			if dropped != "" {
+				r.Viol("C16.count", name+" dequeued record", pos, dropped+": the record is lost")
+			}
+			onDone = onDone && sawDone
+			onIdle = onIdle && sawIdle
 			r.Check(onDone && onIdle, "C16.triggers", name, pos, "flushes when stopped and when the queue stays idle for the wait time",
 				fmt.Sprintf("background loop flushes on stop=%v, on idle=%v", onDone, onIdle))
 		}
